@@ -13,6 +13,7 @@ subprocess.run(['git', '-C', '/repo', 'worktree', 'add', '--detach', wt, 'HEAD']
 probes = sorted(d for d in glob.glob(VERIF + '/seeded/harmless/C*') if os.path.isdir(d))
 only = [a for a in sys.argv[3:] if not a.startswith('--')]
 ALL = [f'C{i:02d}' for i in range(1, 21)]
+ROT = next((int(a.split('=')[1]) for a in sys.argv if a.startswith('--rot=')), 0)   # cross pass: K checks of OTHER properties per probe, rotating (results under `alarms_rot`)
 OWN = '--own' in sys.argv          # quick pass: only the check of the property the probe was written for (its results are kept under `alarms_own`)
 try:
     for i, d in enumerate(probes):
@@ -38,7 +39,9 @@ try:
             m['applied_with_fuzz'] = True
         out = tempfile.mkdtemp(prefix='harmout_', dir='/tmp')
         procs = {}
-        for p in ([m.get('property') or sid.split('-')[0]] if OWN else ALL):
+        own_ = m.get('property') or sid.split('-')[0]
+        rot_ = [c for c in (ALL[(i * 3 + j * 7) % 20] for j in range(1, ROT + 3)) if c != own_][:ROT]
+        for p in ([own_] if OWN else (rot_ if ROT else ALL)):
             e = dict(os.environ, REPO_ROOT=wt, VERIF_OUT=os.path.join(out, p))
             procs[p] = subprocess.Popen([VERIF + '/bin/vcheck', p, '--tier', 'quick'], env=e, stdout=subprocess.PIPE, stderr=subprocess.STDOUT, text=True)
         res = {}
@@ -49,7 +52,7 @@ try:
                 res[p] = {'rc': pr.returncode, 'lines': lines or o.splitlines()[-4:]}
         shutil.rmtree(out, ignore_errors=True)
         m['applies'] = True
-        m['alarms_own' if OWN else 'alarms'] = res
+        m['alarms_own' if OWN else ('alarms_rot' if ROT else 'alarms')] = res
         json.dump(m, open(d + '/meta.json', 'w'), indent=1, ensure_ascii=False)
         print(sid, 'ALARMS' if res else 'quiet', {k: v['rc'] for k, v in res.items()}, flush=True)
         for k, v in res.items():
